@@ -73,6 +73,18 @@ func cmdSetup() int {
 		}
 		os.Remove(w)
 	}
+	// the source-instrumented build of C20 (deterministic for a given tree, so the cache is hit later)
+	dir := filepath.Join(buildDir, "instr-setup")
+	os.RemoveAll(dir)
+	if repl, _, err := instrumentRepo(repoDir, dir); err == nil {
+		if w, err := buildWorker(repoDir, false, repl, "setup-instr"); err == nil {
+			os.Remove(w)
+		} else {
+			fmt.Fprintln(os.Stderr, err)
+			return 1
+		}
+	}
+	os.RemoveAll(dir)
 	fmt.Printf("setup ok (%.1fs)\n", time.Since(t0).Seconds())
 	return 0
 }
